@@ -68,6 +68,38 @@ Definition subst_many (ms : list (string * string)) (t : string) : string :=
   | None => t
   end.
 
+(** chains of object-like macros (values that mention other macros): the full recursive
+    expansion of a token.  A macro name becomes its value with every token of the value expanded
+    in turn; [fuel] bounds the depth of the recursion (for acyclic macro sets of depth below the
+    fuel the result does not depend on it: [expand_tok_fuel] in Proofs/MacroFacts.v). *)
+Fixpoint expand_tok (fuel : nat) (ms : list (string * string)) (t : string) : string :=
+  match fuel with
+  | O => t
+  | S f =>
+      match find (fun nv => String.eqb (fst nv) t) ms with
+      | Some nv => tsubst (expand_tok f ms) (snd nv)
+      | None => t
+      end
+  end.
+
+(** decidable form of the hypotheses of the chain theorem: distinct wordy names, and a rank
+    below 64 that strictly decreases from a macro to every macro name its value mentions *)
+Definition wordy_b (n : string) : bool := negb (String.eqb n EmptyString) && all_word n.
+
+Fixpoint nodup_b (l : list string) : bool :=
+  match l with
+  | [] => true
+  | x :: r => negb (existsb (String.eqb x) r) && nodup_b r
+  end.
+
+Definition chain_ok_b (rank : string -> nat) (ms : list (string * string)) : bool :=
+  nodup_b (map fst ms)
+  && forallb (fun nv =>
+       wordy_b (fst nv) && Nat.ltb (rank (fst nv)) 64
+       && forallb (fun t => negb (existsb (String.eqb t) (map fst ms))
+                            || Nat.ltb (rank t) (rank (fst nv)))
+                  (tokens (snd nv))) ms.
+
 (** ** function-like macros: shapes of arguments *)
 
 Fixpoint no_special (a : string) : bool :=
